@@ -1,0 +1,45 @@
+//go:build verif
+
+// Machine-checked contracts for package types (interface-level contracts and
+// ghost state), consumed by /verif/bin/walvc. No code.
+
+package types
+
+// ---------------------------------------------------------------------------
+// Ghost model of a file as the WAL sees it (README "Our assumptions"):
+//   dirty     - some write has happened since the last successful Sync
+//   dirLinked - the directory entry of the file is durable
+// These ghost fields are only changed by the contracts below; fs.File is
+// proved to implement them (C07), segment.Writer is proved against them (C01).
+// ---------------------------------------------------------------------------
+
+//@ interface WritableFile.WriteAt
+//@   assigns self.dirty
+//@   ensures 0 <= result0 && result0 <= len(p)
+//@   ensures result1 == nil ==> result0 == len(p)
+//@   ensures self.dirty
+
+//@ interface WritableFile.Sync
+//@   assigns self.dirty, self.dirLinked
+//@   ensures result == nil ==> !self.dirty && self.dirLinked
+//@   ensures result != nil ==> self.dirty == old(self.dirty) && self.dirLinked == old(self.dirLinked)
+
+//@ interface WritableFile.ReadAt
+//@   requires off >= 0
+//@   assigns mem(p)
+//@   ensures 0 <= result0 && result0 <= len(p)
+//@   ensures result1 == nil ==> result0 == len(p)
+
+//@ interface ReadableFile.ReadAt
+//@   requires off >= 0
+//@   assigns mem(p)
+//@   ensures 0 <= result0 && result0 <= len(p)
+//@   ensures result1 == nil ==> result0 == len(p)
+
+//@ interface WritableFile.Close
+//@   assigns self.closed
+//@   ensures self.closed
+
+//@ interface ReadableFile.Close
+//@   assigns self.closed
+//@   ensures self.closed
